@@ -3,6 +3,24 @@
 HOOK_COMMITS = ["f5b1d5244facd014c279423c479633cc3b50fced", "3268006", "35263043bf6b5f4fd4fd4db82c5d5667fb3b1627", "271a2157aed3e04ac2f8ae3450ad240ff780209e"]
 
 PROPS = {
+    "C01": {
+        "level": "translation_validation",
+        "rule": "generated Horn-fragment programs (as C02; 1/4 with #[coinductive] traits, SLG only for those) x 6 goals with 1-2 unknowns (4 shaped after an "
+                "impl header with parameters/subterms replaced by unknowns, 2 free-form, conjunctions and equalities); both solvers on fresh instances; "
+                "each answer judged by Contract.judgeAnswer with candidate solutions enumerated over the program's constructors (depth 2 for one unknown, "
+                "depth 1 for two, capped); known-finding programs from corpus/C01 first; non-trivial = every judged answer",
+        "technique": "certified checker: Lean 4 acceptance predicate over the proved-sound Stage-A evaluator (every rejection carries a kernel-certified witness); exact model + theorems for the aggregation layer (C17)",
+        "claim": "Unique: certified to hold for the generic instantiation of its substitution, and no enumerated certified solution lies outside it; No-solution and "
+                 "definite guidance: no enumerated certified solution contradicts them. Every rejection is a proved violation of the property's sentence "
+                 "(theorems rejected_none_has_solution, rejected_unique_does_not_hold, rejected_excludes_solution). Completeness half is refutation-complete "
+                 "only up to the enumeration bound (Stage C / lifting lemma not proved).",
+        "note": "Trusted: Lean kernel, horn.rs translation (program, peeled query, answers), Stage-A theorems. Not verified: the solvers' search (every produced "
+                "answer is checked instead). Known findings F1 (SLG nonlinear definite guidance) and F11 (SLG coinductive variant cycle) are open and reported as "
+                "KNOWN-FINDING. 'holds for every instantiation' is certified on the generic instance with opaque constants; the generalisation lemma "
+                "(derivations are closed under replacing opaque constants) is not yet a theorem.",
+        "correspondence": "real Solver::solve (SLG, recursive) vs Contract.judgeAnswer on horn(program, peeled goal)",
+        "explanation": "translation validation of solver answers by a certified checker",
+    },
     "C02": {
         "level": "translation_validation",
         "rule": "generated programs of the Horn fragment (structs of arity 0-2, 1-3 traits with 0-1 parameters, optionally #[coinductive], 2-7 impls: "
